@@ -7,65 +7,84 @@ def ctrlStep (d : DState) (j : Json) : DState × Json :=
     let job := pJob j
     let cl := pCluster j
     let d' : DState := { job := job, cl := cl, sys := Sys.init job cl, hidden := fun _ => false }
-    (d', full d' [])
+    (d', full d' [] true)
   | "round" =>
     let oracle := (getArr j "asg").map pAsg
+    let orders := (getArr j "asg").map pOrders
     let before := d.sys.env.log.length
     -- enter; if the loop exits we are done
     match step semStr d.job d.cl d.sys .enter with
     | none => (d, Json.mkObj [("enabled", toJson false)])
     | some s1 =>
       if s1.phase == .finished then
-        let d' := { d with sys := s1 }; (d', full d' [("enabled", toJson true), ("cmds", Json.arr #[])])
+        let d' := { d with sys := s1 }; (d', full d' [("enabled", toJson true), ("cmds", Json.arr #[])] true)
       else
         let oracle := if s1.mayAssign then oracle else []
-        let drain (s : Sys) (st : Step) (fuel : Nat) : Sys := Id.run do
+        -- state threaded through the round: (system, hidden outputs, mid-round executor steps still to replay, problems)
+        let applyMid (st : Sys × Hidden × List (Nat × Json) × List String) : Sys × Hidden × List (Nat × Json) × List String := Id.run do
+          let mut (s, hd, mid, notes) := st
+          let mut go := true
+          while go do
+            match mid with
+            | (k, op) :: rest =>
+              if k ≤ s.env.log.length - before then
+                match envOpN d.job d.cl { sys := s, hidden := hd } op with
+                | some x' => s := x'.sys; hd := x'.hidden; mid := rest
+                | none => notes := notes ++ [s!"mid-round executor step not enabled in the model: {op.compress}"]; mid := rest
+              else go := false
+            | [] => go := false
+          return (s, hd, mid, notes)
+        let run1 (st : Sys × Hidden × List (Nat × Json) × List String) (stp : Step) :=
+          let (s, hd, mid, notes) := st
+          ((step semStr d.job d.cl s stp).getD s, hd, mid, notes)
+        let st0 : Sys × Hidden × List (Nat × Json) × List String := (s1, d.hidden, pMid j, [])
+        let st2 := (oracle.zip (orders ++ List.replicate oracle.length [])).foldl (fun st ao =>
+          let st := applyMid st
+          let (s, hd, mid, notes) := st
+          let notes := notes ++ scanMismatches s.ctl ao.1 ao.2
+          run1 (s, hd, mid, notes) (.assign ao.1)) st0
+        let s3 := (run1 st2 .endAssign).1
+        let st3 := (s3, st2.2)
+        let drainS (s : Sys) (stp : Step) (fuel : Nat) : Sys := Id.run do
           let mut s := s
           for _ in [0:fuel] do
-            match step semStr d.job d.cl s st with
+            match step semStr d.job d.cl s stp with
             | some s' => s := s'
             | none => break
           return s
-        let run1 (s : Sys) (st : Step) : Sys := (step semStr d.job d.cl s st).getD s
-        let s2 := oracle.foldl (fun s a => run1 s (.assign a)) s1
-        let s3 := run1 s2 .endAssign
-        let s4 := drain s3 .plan1 (oracle.length + 1)
-        let s5 := run1 s4 .endPlan
-        let s6 := drain s5 .flushF1 (s5.ctl.fetchQ.length + 1)
-        let s7 := run1 s6 .endFlushF
-        let s8 := drain s7 .flushP1 (s7.ctl.purgeQ.length + 1)
-        let s9 := run1 s8 .endFlush
-        let d' := { d with sys := s9 }
-        (d', full d' [("enabled", toJson true), ("cmds", Json.arr ((s9.env.log.drop before).map jCmd).toArray)])
+        let s4 := drainS s3 .plan1 (oracle.length + 1)
+        let s5 := (step semStr d.job d.cl s4 .endPlan).getD s4
+        -- flush: executor steps may be interleaved before every fetch and before the purges of every dataset
+        let stF : Sys × Hidden × List (Nat × Json) × List String := Id.run do
+          let mut st : Sys × Hidden × List (Nat × Json) × List String := (s5, st3.2)
+          for _ in [0:s5.ctl.fetchQ.length + 1] do
+            st := applyMid st
+            match step semStr d.job d.cl st.1 .flushF1 with
+            | some s' => st := (s', st.2)
+            | none => break
+          return st
+        let s7 := (step semStr d.job d.cl stF.1 .endFlushF).getD stF.1
+        let stP : Sys × Hidden × List (Nat × Json) × List String := Id.run do
+          let mut st : Sys × Hidden × List (Nat × Json) × List String := (s7, stF.2)
+          for _ in [0:s7.ctl.purgeQ.length + 1] do
+            st := applyMid st
+            match step semStr d.job d.cl st.1 .flushP1 with
+            | some s' => st := (s', st.2)
+            | none => break
+          return st
+        -- whatever is left happened after the last command of the round
+        let stE := applyMid (stP.1, stP.2.1, stP.2.2.1.map (fun p => (0, p.2)), stP.2.2.2)
+        let s9 := (step semStr d.job d.cl stE.1 .endFlush).getD stE.1
+        let d' := { d with sys := compactSys d.job d.cl s9, hidden := stE.2.1 }
+        let midStates := if getBool j "wantMid" then [("ctlA", digestCtl d.job d.cl s3.ctl), ("ctlP", digestCtl d.job d.cl s5.ctl)] else []
+        (d', full d' ([("enabled", toJson true), ("cmds", Json.arr ((s9.env.log.drop before).map jCmd).toArray),
+          ("notes", strs stE.2.2.2)] ++ midStates))
   | "env" =>
-    let xN : SysN := { sys := d.sys, hidden := d.hidden }
-    -- {"op":"env","yield":[t,k]}: the running body of t publishes its next output, which must be its k-th
-    match j.getObjVal? "yield" with
-    | .ok r =>
-      (match asArr r with
-       | [t, k] =>
-         if nextHidden d.job d.hidden (asNat t) != some (asNat k) then (d, Json.mkObj [("enabled", toJson false)]) else
-         (match stepN semStr d.job d.cl xN (.yield (asNat t)) with
-          | none => (d, Json.mkObj [("enabled", toJson false)])
-          | some x' => ({ d with hidden := x'.hidden }, Json.mkObj [("enabled", toJson true)]))
-       | _ => (d, Json.str "bad-op"))
-    | .error _ =>
-    let es : Option StepN :=
-      match j.getObjVal? "run" with
-      | .ok r => (match asArr r with | [h, i, t] => some (.start ⟨asNat h, asNat i⟩ (asNat t)) | _ => none)
-      | .error _ =>
-        -- the transfer/fetch is named by content; the model step takes its index
-        let want : Option IO := match getArr j "io" with
-          | [Json.str "transmit", t, k, s, g] => some (.transmit ⟨asNat t, asNat k⟩ (asNat s) (asNat g))
-          | [Json.str "fetch", t, k, s] => some (.fetch ⟨asNat t, asNat k⟩ (asNat s))
-          | _ => none
-        want.map (fun o => .base (.env (.io (d.sys.env.outstanding.findIdx (· == o)))))
-    match es with
-    | none => (d, Json.str "bad-op")
-    | some es =>
-      match stepN semStr d.job d.cl xN es with
-      | none => (d, Json.mkObj [("enabled", toJson false)])
-      | some x' => let d' := { d with sys := x'.sys, hidden := x'.hidden }; (d', Json.mkObj [("enabled", toJson true), ("env", digestEnv d.job d.cl x'.sys.env)])
+    match envOpN d.job d.cl { sys := d.sys, hidden := d.hidden } j with
+    | none => (d, Json.mkObj [("enabled", toJson false)])
+    | some x' =>
+      let d' := { d with sys := x'.sys, hidden := x'.hidden }
+      (d', Json.mkObj [("enabled", toJson true), ("env", digestEnv d.job d.cl x'.sys.env)])
   | "deliver" =>
     let evs := (getArr j "events").filterMap pEvent
     if evs.length != (getArr j "events").length then (d, Json.str "bad-event") else
@@ -80,7 +99,7 @@ def ctrlStep (d : DState) (j : Json) : DState × Json :=
           | none => break
         return s
       let s3 := (step semStr d.job d.cl s2 .endNotify).getD s2
-      let d' := { d with sys := s3 }; (d', full d' [("enabled", toJson true)])
+      let d' := { d with sys := compactSys d.job d.cl s3 }; (d', full d' [("enabled", toJson true)])
   | _ => (d, Json.str "bad-op")
 
 def main : IO Unit :=
